@@ -437,7 +437,7 @@ func clip(s string) string {
 }
 
 func master(cfg *harness.Config, rep *harness.Report) {
-	rep.Rule = "cases = start state {empty, 3 points warm, 3 points reopened cold} x batch {insert 1, insert 3, update every indexed field of 2 points, remove every indexed field, delete 2, and the validation rejections: duplicate id in batch, existing id last of 3 (with a document, and as a point without any data), merged document over MaxPointSize, wrong field type; an insert of 10000 points (accepted, and rejected at its last point: four fault ordinals per bucket and kind); plus an index whose construction fails, plus four cases on a schema with a learned binary and a product quantiser whose trigger threshold the batch crosses}; per case a counting run, then one run per fault point = every (bucket, kind in {Put, Delete, ForEach, Scan, BucketOpen, TxBegin}, ordinal) the batch issues, failing exactly that operation; the first and last ordinal of every (bucket, kind) and the fault-free batch additionally under two schedule policies (index pipelines held back / point store held back); one run that takes a crash image of the file at every storage operation, when the transaction function returned, and after commit; and one run per storage operation (reads included) in which the process dies by a panic raised at that operation on the goroutine that issued the batch, so that every deferred function between the operation and the caller runs before the file is inspected (operations issued by other goroutines die without unwinding: their death is the crash image). Oracle: a failed call leaves observation battery + raw bucket digest identical to before, on the running instance and after reopen; a successful call equals the reference model; crash images before commit and the file left by a death by panic equal the state before, after commit the model after; storage use after transaction end is recorded by the proxy. distinct_nontrivial = fault points that fired"
+	rep.Rule = "cases = start state {empty, 3 points warm, 3 points reopened cold} x batch {insert 1, insert 3, update every indexed field of 2 points, remove every indexed field, delete 2, and the validation rejections: duplicate id in batch, existing id last of 3 (with a document, and as a point without any data), merged document over MaxPointSize, wrong field type; an insert of 10000 points (accepted, and rejected at its last point: four fault ordinals per bucket and kind); plus an index whose construction fails, plus four cases on a schema with a learned binary and a product quantiser whose trigger threshold the batch crosses}; per case a counting run, then one run per fault point = every (bucket, kind in {Put, Delete, ForEach, Scan, BucketOpen, TxBegin}, ordinal) the batch issues, failing exactly that operation, and one run in which the commit itself fails after the transaction function returned; the first and last ordinal of every (bucket, kind) and the fault-free batch additionally under two schedule policies (index pipelines held back / point store held back); one run that takes a crash image of the file at every storage operation, when the transaction function returned, and after commit; and one run per storage operation (reads included) in which the process dies by a panic raised at that operation on the goroutine that issued the batch, so that every deferred function between the operation and the caller runs before the file is inspected (operations issued by other goroutines die without unwinding: their death is the crash image). Oracle: a failed call leaves observation battery + raw bucket digest identical to before, on the running instance and after reopen; a successful call equals the reference model; crash images before commit and the file left by a death by panic equal the state before, after commit the model after; storage use after transaction end is recorded by the proxy. distinct_nontrivial = fault points that fired"
 	rep.Assumptions = []string{"Get cannot return an error in the storage API: reads are counted, not failed", "bbolt's own commit (page writes + fsync) is atomic: torn pages inside a commit are not enumerated", "goroutine interleavings inside the batch are those the real scheduler produced (schedule policies: see DESIGN.md)"}
 	p := pool.New(pool.Options{CPUsPerWorker: 2, JobTimeout: 90 * time.Second})
 	run := func(jobs []job) []pool.Result {
@@ -498,7 +498,14 @@ func master(cfg *harness.Config, rep *harness.Report) {
 		sort.Strings(keys)
 		for _, k := range keys {
 			bucket, kind, _ := strings.Cut(k, "|")
-			if kind == faultx.KReturn || kind == faultx.KEnd {
+			if kind == faultx.KEnd {
+				continue
+			}
+			if kind == faultx.KReturn {
+				// the transaction function has returned nil - every index is done - and the commit
+				// fails: the batch must leave no trace either
+				fjobs = append(fjobs, job{Kind: "fault", Case: cjobs[i].Case, Fault: &faultx.Fault{Tx: 1, Kind: faultx.KReturn, Ordinal: 1, Action: "fail"}})
+				faultPoints++
 				continue
 			}
 			n := res.Counts[k]
